@@ -22,6 +22,13 @@ def load_corpus(props=None):
         for pid in [f"C{i:02d}" for i in range(1, 17)]:
             if props is None or pid in props:
                 out.append({"id": f"refactor-patch-{name}", "prop": pid, "kind": "refactor", "patch": path, "edits": [], "rule": None})
+    # kept seeded changes (independent sub-agents, confirmed): each must be reported by the property it targets
+    for d in sorted(glob.glob(os.path.join(HERE, "seeded", "*"))):
+        mp, pp = os.path.join(d, "meta.json"), os.path.join(d, "patch.diff")
+        if os.path.exists(mp) and os.path.exists(pp):
+            pid = json.load(open(mp)).get("property")
+            if props is None or pid in props:
+                out.append({"id": f"seeded-{os.path.basename(d)}", "prop": pid, "kind": "break", "patch": pp, "edits": [], "rule": None})
     return out
 
 
